@@ -52,7 +52,13 @@ pub fn extra(ctx: &Ctx, stats: &Stats) {
     let shapes = ["div", "b-close", "table", "template", "svg", "a", "li", "attrval", "attrs", "comment", "amp", "p-button", "font", "nobr", "select", "ruby"];
     let ns: Vec<usize> = if ctx.tier == Tier::Thorough { vec![1000, 10_000, 30_000] } else { vec![1000, 10_000] };
     let exe = std::env::current_exe().unwrap();
-    let grid: Vec<(&str, usize)> = shapes.iter().flat_map(|s| ns.iter().map(move |n| (*s, *n))).collect();
+    let mut grid: Vec<(&str, usize)> = shapes.iter().flat_map(|s| ns.iter().map(move |n| (*s, *n))).collect();
+    // single long character runs (one per run-consuming tokenizer / tree-builder path): linear work expected,
+    // the child's watchdog for these is RUN_LIMIT_SECS (the unchanged code needs well under a second)
+    let run_n = ctx.tier.pick(512 * 1024, 2 * 1024 * 1024);
+    for r in RUN_SHAPES {
+        grid.push((r, run_n));
+    }
     grid.par_iter().for_each(|&(shape, n)| {
         // quadratic shapes get a smaller top size
         let n = if matches!(shape, "a" | "nobr" | "b-close" | "font") && n > 20_000 { 20_000 } else { n };
@@ -72,6 +78,15 @@ pub fn extra(ctx: &Ctx, stats: &Stats) {
     });
 }
 
+pub const RUN_LIMIT_SECS: u64 = 30;
+pub const RUN_SHAPES: &[&str] = &[
+    "run-text", "run-amp-name", "run-amp-name-attr", "run-amp-dec", "run-amp-hex", "run-tagname", "run-endtagname", "run-attrname", "run-attrval-dq",
+    "run-attrval-sq", "run-attrval-unq", "run-tag-space", "run-comment", "run-comment-dash", "run-comment-bang", "run-bogus-comment", "run-doctype-name",
+    "run-doctype-public", "run-doctype-bogus", "run-rcdata", "run-rcdata-lt", "run-rawtext", "run-script", "run-script-escaped", "run-script-double",
+    "run-plaintext", "run-cdata", "run-cdata-brackets", "run-lt", "run-cr", "run-crlf", "run-nul", "run-table-space", "run-table-text", "run-pre-lf",
+    "run-multibyte", "run-xml-pi",
+];
+
 pub fn scale_input(shape: &str, n: usize) -> String {
     match shape {
         "div" => "<div>".repeat(n),
@@ -90,6 +105,43 @@ pub fn scale_input(shape: &str, n: usize) -> String {
         "nobr" => "<nobr>x".repeat(n),
         "select" => format!("<select>{}", "<option>x".repeat(n)),
         "ruby" => format!("<ruby>{}", "<rb><rt>".repeat(n)),
+        "run-text" => "x".repeat(n),
+        "run-amp-name" => format!("&{}", "z".repeat(n)),
+        "run-amp-name-attr" => format!("<p title=\"&{}\">", "9".repeat(n)),
+        "run-amp-dec" => format!("&#{}", "9".repeat(n)),
+        "run-amp-hex" => format!("<p title='&#x{};'>", "f".repeat(n)),
+        "run-tagname" => format!("<{}", "a".repeat(n)),
+        "run-endtagname" => format!("</{}>", "a".repeat(n)),
+        "run-attrname" => format!("<a {}>", "b".repeat(n)),
+        "run-attrval-dq" => format!("<a b=\"{}\">", "x".repeat(n)),
+        "run-attrval-sq" => format!("<a b='{}'>", "\n".repeat(n)),
+        "run-attrval-unq" => format!("<a b={}>", "x".repeat(n)),
+        "run-tag-space" => format!("<a{}>", " ".repeat(n)),
+        "run-comment" => format!("<!--{}-->", "x".repeat(n)),
+        "run-comment-dash" => format!("<!--{}", "-".repeat(n)),
+        "run-comment-bang" => format!("<!--{}", "--!".repeat(n / 3)),
+        "run-bogus-comment" => format!("<?{}", "x".repeat(n)),
+        "run-doctype-name" => format!("<!DOCTYPE {}>", "x".repeat(n)),
+        "run-doctype-public" => format!("<!DOCTYPE a PUBLIC \"{}\" '{}'>", "x".repeat(n / 2), "y".repeat(n / 2)),
+        "run-doctype-bogus" => format!("<!DOCTYPE a b{}>", "x".repeat(n)),
+        "run-rcdata" => format!("<title>{}", "x".repeat(n)),
+        "run-rcdata-lt" => format!("<title>{}", "</t".repeat(n / 3)),
+        "run-rawtext" => format!("<style>{}</style>", "x".repeat(n)),
+        "run-script" => format!("<script>{}", "x".repeat(n)),
+        "run-script-escaped" => format!("<script><!--{}", "x-".repeat(n / 2)),
+        "run-script-double" => format!("<script><!--<script>{}", "<-".repeat(n / 2)),
+        "run-plaintext" => format!("<plaintext>{}", "x\0".repeat(n / 2)),
+        "run-cdata" => format!("<svg><![CDATA[{}", "x".repeat(n)),
+        "run-cdata-brackets" => format!("<svg><![CDATA[{}", "]".repeat(n)),
+        "run-lt" => "<".repeat(n),
+        "run-cr" => "\r".repeat(n),
+        "run-crlf" => "\r\n".repeat(n / 2),
+        "run-nul" => "\0".repeat(n),
+        "run-table-space" => format!("<table>{}", " ".repeat(n)),
+        "run-table-text" => format!("<table>{}", "x".repeat(n)),
+        "run-pre-lf" => format!("<pre>{}", "\n".repeat(n)),
+        "run-multibyte" => "\u{20ac}".repeat(n / 3),
+        "run-xml-pi" => format!("<?p {}?>", "x".repeat(n)),
         _ => machinery("unknown shape"),
     }
 }
@@ -97,9 +149,10 @@ pub fn scale_input(shape: &str, n: usize) -> String {
 /// child process body: parse (html + xml), serialize, drop; watchdog via alarm thread
 pub fn scale_child(shape: &str, n: usize) -> ! {
     let input = scale_input(shape, n);
-    std::thread::spawn(|| {
-        std::thread::sleep(std::time::Duration::from_secs(300));
-        eprintln!("watchdog: still running after 300 s");
+    let limit = if shape.starts_with("run-") { RUN_LIMIT_SECS } else { 300 };
+    std::thread::spawn(move || {
+        std::thread::sleep(std::time::Duration::from_secs(limit));
+        eprintln!("watchdog: still running after {limit} s");
         std::process::exit(3);
     });
     let chunkings: Vec<Vec<Feed>> = if n <= 1000 {
